@@ -284,6 +284,15 @@ fn get_match_statically_known(
 
     let query_variable = |query: &expr::StaticallyKnownVariableQuery|
     {
+        // `$` and `pc` always evaluate to the current address,
+        // even if a symbol of that name has been declared
+        if query.hierarchy_level == 0 &&
+            query.hierarchy.len() == 1 &&
+            (query.hierarchy[0] == "$" || query.hierarchy[0] == "pc")
+        {
+            return false;
+        }
+
         match decls.symbols.try_get_by_name(
             symbol_ctx,
             query.hierarchy_level,
